@@ -24,3 +24,14 @@ claim("C11", "other",
       "Decides, for every path of the handle-table code of both servers: counter increments only under the lock and handles derive from it; tables accessed only under their lock; lookup results used only under ok with EBADF on the miss path; the closed set of close sites with delete-then-close on one locked path; failed opens release their handle; every object obtained from a handler or from openfile is stored in a handle or closed on every non-error path; transfer-error/context-cancel wiring; sweeps after the worker join on every return path. Necessary structural conditions, not an execution.",
       "Assumes handler objects do not close themselves and package os releases descriptors on Close; lock idiom is Lock/RLock + deferred unlock (the only idiom in the repository).",
       "DESIGN.md section 4, C11")
+
+claim("C03", "other",
+      "value provenance of request ids (fresh per loop iteration), locksets, dominance rules on dispatchRequest/recv, who-may-call",
+      "Decides the routing mechanism's necessary conditions on every path: ids drawn from the atomic counter in the same iteration and used once; one locked writer per connection; register-before-send with the packet's own id; in-flight table only under its mutex; recv routes by the id decoded from the received packet and removes the entry; one pooled result channel per in-flight request, returned only after its result was consumed.",
+      "Assumes peers answer with outstanding ids; lock idiom Lock + deferred Unlock; callers enumerated statically (functions used as values are reported).",
+      "DESIGN.md section 4, C03")
+claim("C04", "other",
+      "channel-protocol and shutdown-shape rules on SSA (select/send/close/range structure, path counts, locksets, who-may-call)",
+      "Decides the shape of the shutdown protocol that is necessary for 'every call fails, none hangs': broadcast on every receiver exit, exactly-once notification and latch under the mutex, refusal after close, send errors delivered through the table, buffered result channels, writer closed and receiver joined, and in the four concurrent transfers cancellable or drained sends, closed work channels, workers that never leave their loop, single close of cancel. Bounded-time liveness itself is not claimed.",
+      "Assumes closing the writer unblocks the reader's Read and the optional ssh Wait hook returns.",
+      "DESIGN.md section 4, C04")
